@@ -6,6 +6,7 @@ CONSTANTS
   ClearChoices = {FALSE}
   Installs = {TRUE}
   ResetsResult = TRUE
+  RunBound = TRUE
   LateIgnored = FALSE
 INVARIANT ResultRight
 CHECK_DEADLOCK FALSE
